@@ -5,19 +5,21 @@ import (
 	lunarMessages "lunar/engine/messages"
 	sharedConfig "lunar/shared-model/config"
 	"lunar/toolkit-core/clock"
+	"sync/atomic"
 
 	"github.com/rs/zerolog/log"
 )
 
 type FixedResponsePlugin struct {
-	counter int
+	// incremented by every transaction that reaches the plugin: transactions
+	// run concurrently, so the counter is atomic
+	counter atomic.Int64
 	clock   clock.Clock
 }
 
 func NewFixedResponsePlugin(clock clock.Clock) *FixedResponsePlugin {
-	return &FixedResponsePlugin{
-		counter: 0,
-		clock:   clock,
+	return &FixedResponsePlugin{ //nolint:exhaustruct
+		clock: clock,
 	}
 }
 
@@ -26,8 +28,7 @@ func (plugin *FixedResponsePlugin) OnRequest(
 	remedyConfig *sharedConfig.FixedResponseConfig,
 ) (actions.ReqLunarAction, error) {
 	var lunarAction actions.ReqLunarAction = &actions.NoOpAction{}
-	plugin.counter++
-	log.Trace().Msgf("Counter: %v", plugin.counter)
+	log.Trace().Msgf("Counter: %v", plugin.counter.Add(1))
 
 	if onRequest.Headers["early-response"] == "true" {
 		body := "{\"message\": \"GO Lunar\"}"
